@@ -182,7 +182,7 @@ impl Server {
                 fn poll(fds: *mut PollFd, nfds: u64, timeout: i32) -> i32;
             }
             let mut pfd = PollFd { fd: self.stdout.get_ref().as_raw_fd(), events: 1, revents: 0 };
-            let n = unsafe { poll(&mut pfd, 1, TRIPWIRE_MS as i32) };
+            let n = unsafe { poll(&mut pfd, 1, wd.tripwire_ms.get() as i32) };
             if n <= 0 {
                 return None;
             }
@@ -215,6 +215,7 @@ pub struct WorkDir {
     pub server: std::cell::RefCell<Option<Server>>,
     pub use_server: bool,
     pub server_fallbacks: std::cell::Cell<u64>,
+    pub tripwire_ms: std::cell::Cell<u64>,
 }
 
 impl WorkDir {
@@ -224,10 +225,11 @@ impl WorkDir {
         std::fs::create_dir_all(&xdg).unwrap();
         std::fs::copy(&paths.config, xdg.join("config.json")).unwrap();
         std::fs::copy(&paths.lkm_config, xdg.join("lkm_config.json")).unwrap();
-        WorkDir { dir, server: std::cell::RefCell::new(None), use_server: false, server_fallbacks: std::cell::Cell::new(0) }
+        WorkDir { dir, server: std::cell::RefCell::new(None), use_server: false, server_fallbacks: std::cell::Cell::new(0), tripwire_ms: std::cell::Cell::new(TRIPWIRE_MS) }
     }
     pub fn with_server(mut self) -> WorkDir {
         self.use_server = true;
+        self.tripwire_ms.set(TRIPWIRE_EXPLORE_MS);
         self
     }
     pub fn p(&self, name: &str) -> String {
@@ -240,7 +242,9 @@ impl WorkDir {
 }
 
 /// Real-time tripwire for runaway runs (never an oracle on its own, see DESIGN 3.5).
-pub const TRIPWIRE_MS: u64 = 120_000;
+pub const TRIPWIRE_MS: u64 = 30_000;
+/// tripwire while exploring (a suspected hang is confirmed with the longer one in a fresh process)
+pub const TRIPWIRE_EXPLORE_MS: u64 = 10_000;
 
 pub fn run_cli(wd: &WorkDir, paths: &Paths, mode: &CliMode, env: &Env, lkm: bool) -> RunOut {
     let cfg = if lkm { wd.p("xdg/cwe_checker/lkm_config.json") } else { wd.p("xdg/cwe_checker/config.json") };
@@ -274,7 +278,8 @@ pub fn run_raw(wd: &WorkDir, paths: &Paths, argv: &[String], env: &Env) -> RunOu
                     };
                 }
                 None => {
-                    // the run took the server down: judge it from a one-shot process instead
+                    // the run took the server down (exit, abort, stack overflow) or never answered:
+                    // judge it from a one-shot process instead
                     *slot = None;
                     wd.server_fallbacks.set(wd.server_fallbacks.get() + 1);
                 }
@@ -305,7 +310,7 @@ pub fn run_raw(wd: &WorkDir, paths: &Paths, argv: &[String], env: &Env) -> RunOu
         match child.try_wait().unwrap() {
             Some(s) => break Some(s),
             None => {
-                if t0.elapsed().as_millis() as u64 > TRIPWIRE_MS {
+                if t0.elapsed().as_millis() as u64 > wd.tripwire_ms.get() {
                     let _ = child.kill();
                     let _ = child.wait();
                     timed_out = true;
